@@ -6,12 +6,21 @@
 (* its whole duration, so operations are atomic and concurrent callers see *)
 (* some sequential order of them.                                          *)
 (*                                                                         *)
-(* Rollback = TRUE  : intended behaviour — a Watch whose informer fails to *)
-(*                    start leaves no reference behind.                    *)
-(* Rollback = FALSE : the code as found before the fix (reference stays,   *)
-(*                    the next Watch skips informer creation and handler   *)
-(*                    registration, a later read starts an informer        *)
-(*                    implicitly without handlers).                        *)
+(* Informer start-up can fail in two ways (internal/dynamiccache/          *)
+(* informer_map.go): "create" - the informer is never created; "sync" -    *)
+(* it is created and runs inside the informer map but its first sync times *)
+(* out, Get returns a Timeout error.                                       *)
+(*                                                                         *)
+(* Rollback = "full"   : intended behaviour - a Watch whose informer fails *)
+(*                       to start leaves neither a reference nor a running *)
+(*                       informer behind.                                  *)
+(* Rollback = "refonly": the reference is dropped but an informer created  *)
+(*                       by a timed-out start keeps running, un-owned      *)
+(*                       (the code after fix 3d787c7, before its follow-up)*)
+(* Rollback = "none"   : the code as found (reference stays, the next      *)
+(*                       Watch skips informer creation and handler         *)
+(*                       registration, a later read starts an informer     *)
+(*                       implicitly without handlers).                     *)
 (***************************************************************************)
 EXTENDS Naturals, FiniteSets
 
@@ -32,9 +41,17 @@ Init == /\ refs = [ k \in Kinds |-> {} ] /\ running = {} /\ attached = {} /\ fai
 
 St(r, ru, at) == [ refs |-> r, running |-> ru, attached |-> at ]
 
-WatchF(s, o, k, fail) ==
+Fails(f) == f \in {"create", "sync"}
+
+\* f: how the informer start-up of this call fails, if it has to start one ("none" | "create" | "sync").
+\* An informer already present in the informer map is handed out as it is (no start, no failure).
+WatchF(s, o, k, f) ==
     IF s.refs[k] # {} THEN [ st |-> St([ s.refs EXCEPT ![k] = @ \cup {o} ], s.running, s.attached), result |-> "ok" ]
-    ELSE IF fail THEN [ st |-> St(IF Rollback THEN s.refs ELSE [ s.refs EXCEPT ![k] = {o} ], s.running, s.attached), result |-> "Error" ]
+    ELSE IF Fails(f) /\ k \notin s.running
+      THEN [ st |-> St(IF Rollback = "none" THEN [ s.refs EXCEPT ![k] = {o} ] ELSE s.refs,
+                       IF f = "sync" /\ Rollback # "full" THEN s.running \cup {k} ELSE s.running,
+                       s.attached),
+             result |-> "Error" ]
     ELSE [ st |-> St([ s.refs EXCEPT ![k] = {o} ], s.running \cup {k}, s.attached \cup {k}), result |-> "ok" ]
 
 FreeF(s, o) ==
@@ -42,10 +59,10 @@ FreeF(s, o) ==
         stop == { k \in Kinds : o \in s.refs[k] /\ nr[k] = {} } IN
     [ st |-> St(nr, s.running \ stop, s.attached \ stop), result |-> "ok" ]
 
-ReadF(s, k, fail) ==
+ReadF(s, k, f) ==
     IF s.refs[k] = {} THEN [ st |-> s, result |-> "NotStarted" ]
     ELSE IF k \in s.running THEN [ st |-> s, result |-> "ok" ]
-    ELSE IF fail THEN [ st |-> s, result |-> "Error" ]
+    ELSE IF Fails(f) THEN [ st |-> St(s.refs, IF f = "sync" THEN s.running \cup {k} ELSE s.running, s.attached), result |-> "Error" ]
     ELSE [ st |-> St(s.refs, s.running \cup {k}, s.attached), result |-> "ok" ]     \* implicit start, no handlers
 
 Cur == St(refs, running, attached)
@@ -54,15 +71,16 @@ Apply(r, op, k, o) ==
     /\ refs' = r.st.refs /\ running' = r.st.running /\ attached' = r.st.attached
     /\ last' = [ op |-> op, kind |-> k, owner |-> o, result |-> r.result, wasOwned |-> IF k \in Kinds THEN refs[k] # {} ELSE FALSE ]
 
-Watch(o, k, fail) == /\ (fail => fails < MaxFail) /\ fails' = IF fail THEN fails + 1 ELSE fails
-                     /\ Apply(WatchF(Cur, o, k, fail), "Watch", k, o)
+FailKinds == {"none", "create", "sync"}
+Watch(o, k, f)    == /\ (Fails(f) => fails < MaxFail) /\ fails' = IF Fails(f) THEN fails + 1 ELSE fails
+                     /\ Apply(WatchF(Cur, o, k, f), "Watch", k, o)
 Free(o)           == /\ UNCHANGED fails /\ Apply(FreeF(Cur, o), "Free", "", o)
-Read(k, fail)     == /\ (fail => fails < MaxFail) /\ fails' = IF fail THEN fails + 1 ELSE fails
-                     /\ Apply(ReadF(Cur, k, fail), "Get", k, "")
+Read(k, f)        == /\ (Fails(f) => fails < MaxFail) /\ fails' = IF Fails(f) THEN fails + 1 ELSE fails
+                     /\ Apply(ReadF(Cur, k, f), "Get", k, "")
 
-Next == \/ \E o \in Owners, k \in Kinds, f \in BOOLEAN : Watch(o, k, f)
+Next == \/ \E o \in Owners, k \in Kinds, f \in FailKinds : Watch(o, k, f)
         \/ \E o \in Owners : Free(o)
-        \/ \E k \in Kinds, f \in BOOLEAN : Read(k, f)
+        \/ \E k \in Kinds, f \in FailKinds : Read(k, f)
 
 Spec == Init /\ [][Next]_vars
 
